@@ -240,7 +240,9 @@ def loads_json(s,**kw):
     .. versionadded:: 1.3.0
     """
     # Support for legacy JSON format will be dropped in GTC 2
-    pattern = r'"version": "{}"'.format(
+    # json.dumps(..., separators=(item, key)) decides the text between a key and
+    # its value, so allow any white space around the colon
+    pattern = r'"version"\s*:\s*"{}"'.format(
         re.sub(r'\.', r'\.',JSON_SCHEMA)
     )
     stacklevel = kw.pop('stacklevel', 3)
